@@ -73,6 +73,11 @@ type SimNode struct {
 	// insert events it received (-1: never). Used for reset nodes: C13 holds
 	// "for as long as it can insert the events it receives".
 	InsertFailedStep int
+	// ReusedIndexStep is the first step at which this node was seen creating an
+	// event at an index it had already used (after a reset it no longer knows
+	// the events it created beyond the anchor): the same thing as equivocation
+	// from the point of view of every property, so the node is not judged further
+	ReusedIndexStep int
 	AnchorAtReset    map[int]int // app epoch -> anchor block index the node reset to
 	AnchorRRAtReset  map[int]int
 	Incarnation      int
@@ -491,7 +496,7 @@ func (nw *Network) addIdentity(moniker string) *SimNode {
 	if moniker == "" {
 		moniker = fmt.Sprintf("node%d", idx)
 	}
-	n := &SimNode{Idx: idx, Name: moniker, Addr: fmt.Sprintf("sim:%d", idx), Key: k, PubHex: pubHex(k), nw: nw,
+	n := &SimNode{ReusedIndexStep: -1, Idx: idx, Name: moniker, Addr: fmt.Sprintf("sim:%d", idx), Key: k, PubHex: pubHex(k), nw: nw,
 		known: map[uint32]int{}, has: map[string]bool{}}
 	p := mkPeer(k, n.Addr, moniker)
 	n.ID = p.ID()
@@ -608,6 +613,7 @@ func (nw *Network) startNode(sn *SimNode, opts NodeOpts, current, genesis []*pee
 	sn.Incarnation++
 	sn.StoreClosed = false
 	sn.InsertFailedStep = -1
+	sn.ReusedIndexStep = -1
 	sn.known = map[uint32]int{}
 	sn.has = map[string]bool{}
 	sn.order = nil
@@ -1084,4 +1090,10 @@ func peerKeys(ps []*peers.Peer) string {
 func pinSeed(cs CaseSpec) int64 {
 	_, seed, index := cs.pinned()
 	return seed*1000003 + int64(index)
+}
+
+// unjudgedAfterReset: a node reset by fast-sync that could not insert what it
+// received (parents below its frame) or that re-used one of its own indexes.
+func (n *SimNode) unjudgedAfterReset() bool {
+	return n.ResetEpochs > 0 && (n.InsertFailedStep >= 0 || n.ReusedIndexStep >= 0)
 }
